@@ -142,6 +142,7 @@ fn main() {
             extra.insert("big_alloc_not_judged".to_string(), json!(r.counters[C_BIG]));
             extra.insert("big_alloc_sites".to_string(), json!(r.big_alloc_sites));
             extra.insert("workers_restarted".to_string(), json!(r.workers_restarted));
+            extra.insert("slow_cases_not_hangs".to_string(), json!(r.slow_cases));
             extra.insert("engine".to_string(), json!("E3 complete sweep in forked workers (per-case deadline 2 s, allocation guard)"));
             for (k, v) in &r.big_alloc_sites {
                 *all_sites.entry(k.clone()).or_insert(0) += v;
